@@ -209,7 +209,19 @@ fn offset_case(off: i32, t: i64, ns: u32, rec: &Recorder, sweep: &str, tl: &mut 
         let d = DateTime::from_timespec_and_local(t, ns, ltt).map_err(|e| (json!("DateTime"), json!(format!("{e:?}"))))?;
         let mut dg = check_dt(&d)?;
         if off.unsigned_abs() <= 1 || off % 3600 == 0 {
-            for l2 in [LocalTimeType::new(off, false, Some(b"GMT")), LocalTimeType::new(off, true, None), LocalTimeType::new(off, true, Some(b"UTC")), LocalTimeType::with_ut_offset(off)] {
+            for l2 in [
+                LocalTimeType::new(off, false, Some(b"GMT")),
+                LocalTimeType::new(off, true, None),
+                LocalTimeType::new(off, true, Some(b"UTC")),
+                LocalTimeType::with_ut_offset(off),
+                // designations that themselves look like an offset or a marker (the rendering depends on the offset only)
+                LocalTimeType::new(off, false, Some(b"-00")),
+                LocalTimeType::new(off, true, Some(b"+00")),
+                LocalTimeType::new(off, false, Some(b"+0000")),
+                LocalTimeType::new(off, false, Some(b"ZZZ")),
+                LocalTimeType::new(off, false, Some(b"LMT")),
+                LocalTimeType::new(off, true, Some(b"-0000")),
+            ] {
                 let l2 = l2.map_err(|e| (json!("LocalTimeType"), json!(format!("{e:?}"))))?;
                 let d2 = DateTime::from_timespec_and_local(t, ns, l2).map_err(|e| (json!("DateTime"), json!(format!("{e:?}"))))?;
                 dg = dg.wrapping_add(check_dt(&d2)?);
@@ -258,7 +270,7 @@ fn fields_case(y: i32, mo: u8, d: u8, h: u8, mi: u8, s: u8, ns: u32, off: i32, r
 fn check_format_specs(rec: &Recorder) -> u64 {
     let mut f = Fnv::default();
     let mut n = 0u64;
-    let samples: Vec<DateTime> = [(0i64, 0u32, 0i32), (1_700_000_000, 123_456_789, 19_800), (-62_135_596_801, 999_999_999, -1), (crate::cal::MAX_UNIX_TIME - (1 << 31) - 10, 5, i32::MAX), (crate::cal::MIN_UNIX_TIME + (1 << 31) + 10, 0, i32::MIN + 1)]
+    let samples: Vec<DateTime> = [(0i64, 0u32, 0i32), (1_700_000_000, 123_456_789, 19_800), (-62_135_596_801, 999_999_999, -1), (crate::cal::MAX_UNIX_TIME - (1 << 31) - 10, 5, i32::MAX), (crate::cal::MIN_UNIX_TIME + (1 << 31) + 10, 0, i32::MIN + 1), (crate::cal::MIN_UNIX_TIME + (1 << 31) + 10, 4_000_000_000, i32::MIN + 1), (0, u32::MAX, -1)]
         .iter()
         .filter_map(|&(t, ns, off)| DateTime::from_timespec_and_local(t, ns, LocalTimeType::with_ut_offset(off).ok()?).ok())
         .collect();
@@ -503,6 +515,43 @@ pub fn run(args: &Args) -> i32 {
     rec.sub("small_product", json!({"evaluations": tl.evals}));
     total = total.merge(tl);
 
+    // (3b) every distinct local time type of the vendored IANA corpus (offset, DST flag, designation as they occur in real files)
+    #[cfg(feature = "tz-alloc")]
+    if !args.digest_mode {
+        let mut seen = std::collections::BTreeSet::new();
+        let mut tl = Tally::default();
+        for sub in ["fat", "slim"] {
+            for p in crate::tzif::corpus_files(sub) {
+                if let Ok(z) = std::fs::read(&p).map_err(|_| ()).and_then(|b| tz::TimeZone::from_tz_data(&b).map_err(|_| ())) {
+                    let r = z.as_ref();
+                    let mut types: Vec<LocalTimeType> = r.local_time_types().to_vec();
+                    match r.extra_rule() {
+                        Some(tz::timezone::TransitionRule::Fixed(l)) => types.push(*l),
+                        Some(tz::timezone::TransitionRule::Alternate(a)) => {
+                            types.push(*a.std());
+                            types.push(*a.dst());
+                        }
+                        None => {}
+                    }
+                    for l in types {
+                        if seen.insert((l.ut_offset(), l.is_dst(), l.time_zone_designation().to_string())) {
+                            for (t, ns) in [(0i64, 0u32), (1_700_000_000, 123_456_789)] {
+                                if let Ok(d) = DateTime::from_timespec_and_local(t, ns, l) {
+                                    tl.evals += 1;
+                                    match check_dt(&d) {
+                                        Ok(dg) => tl.digest = tl.digest.wrapping_add(dg),
+                                        Err((e, g)) => rec.violation("corpus_types", json!({"kind":"offset","offset":l.ut_offset(),"t":t,"ns":ns}), e, g),
+                                    }
+                                }
+                            }
+                        }
+                    }
+                }
+            }
+        }
+        rec.sub("corpus_types", json!({"distinct_local_time_types": seen.len(), "evaluations": tl.evals}));
+        total = total.merge(tl);
+    }
     // (4) format specifications
     total.digest = total.digest.wrapping_add(check_format_specs(&rec));
 
